@@ -223,6 +223,7 @@ type segH struct {
 type Env struct {
 	fieldLists     map[string][]string // ONE caller-side []string per requested doc-value field list, handed to every DocumentValueReader call that asks for that list
 	persistCalls   int
+	statAdds       int
 	retFields      map[int]*retainedFields // Fields() results the caller kept (the slice as returned + a private copy)
 	retDocNums     map[int]*retainedNums   // DocumentNumbers() results the caller kept, by output file
 	keybuf         []byte // ONE caller-side key buffer reused for every Contains / PostingsList key (the API borrows keys)
@@ -1450,6 +1451,8 @@ func postingEv(p segment.Posting, freq, norm, locs bool) M {
 		}
 		r["locs"] = ls
 	}
+	// a multi-segment reader renumbers the hit in place (local number + the segment's base) before it hands it on
+	runRecover(func() { p.SetNumber(p.Number() + 1000003) })
 	return r
 }
 
@@ -1698,6 +1701,17 @@ func (e *Env) doStats(op *Op) {
 	e.emit(M{"ev": "stats", "seg": op.Seg, "field": op.Field, "res": res})
 }
 
+type foreignStats struct{ total, docs, sum uint64 }
+
+func (f *foreignStats) TotalDocumentCount() uint64    { return f.total }
+func (f *foreignStats) DocumentCount() uint64         { return f.docs }
+func (f *foreignStats) SumTotalTermFrequency() uint64 { return f.sum }
+func (f *foreignStats) Merge(o segment.CollectionStats) {
+	f.total += o.TotalDocumentCount()
+	f.docs += o.DocumentCount()
+	f.sum += o.SumTotalTermFrequency()
+}
+
 // statistics objects that live across calls: stats_get keeps the object CollectionStats returned under handle R,
 // stats_add merges R2 into R (CollectionStats.Merge mutates its receiver), stats_read reads an object back
 func (e *Env) doStatsObj(op *Op) {
@@ -1722,7 +1736,13 @@ func (e *Env) doStatsObj(op *Op) {
 			e.emit(M{"ev": "skip", "op": op.Op})
 			return
 		}
-		class := e.call(func() { a.Merge(b) })
+		e.statAdds++
+		var arg segment.CollectionStats = b
+		if e.statAdds%2 == 1 {
+			// the other side is another implementation of the interface (another segment plugin, an index-level accumulator)
+			arg = &foreignStats{total: b.TotalDocumentCount(), docs: b.DocumentCount(), sum: b.SumTotalTermFrequency()}
+		}
+		class := e.call(func() { a.Merge(arg) })
 		res := resKind(class, nil)
 		if res["kind"] == "ok" {
 			res["stats"] = statsEv(a)
@@ -1757,6 +1777,10 @@ func (e *Env) doStatsMerge(op *Op) {
 		o, err = b.seg.CollectionStats(op.Field)
 		if err != nil {
 			return
+		}
+		e.statAdds++
+		if e.statAdds%2 == 1 {
+			o = &foreignStats{total: o.TotalDocumentCount(), docs: o.DocumentCount(), sum: o.SumTotalTermFrequency()}
 		}
 		cs.Merge(o)
 	})
